@@ -180,7 +180,9 @@ def session_binding(chk, thorough):
         n = 0
 
         def emit(self, e):
-            if e.get("ev") == "Send" and e.get("nwire"):
+            # the engine-discovery / time-synchronisation probes are the session's own business (the sync client does not police
+            # them, the async client does): the statement is about the requests the caller issues
+            if e.get("ev") == "Send" and e.get("nwire") and e.get("op") != "refresh":
                 emit({"ev": "Wire"})
     mib = [bytes([43, 6, 1, 4, 1, 206, 15, 5, i]) for i in range(1, 6)]
     nsess = 0
@@ -245,6 +247,58 @@ def session_binding(chk, thorough):
             api2.close()
         asyncio.run(go())
         nsess += 1
+    # v3 sessions that have to discover the engine id first, with the first discovery datagram lost and the handshake retried:
+    # whatever the handshake does with the limiter, the requests issued afterwards are policed
+    from checks import c13
+    for cn in ("v3-md5", "v3-sha1-aes"):
+        cfg = std[cn]
+        for variant in ("policer", "limit_rps"):
+            kw = dict(policer=Rec()) if variant == "policer" else dict(limit_rps=200)
+            # sync
+            holder = {}
+            emit({"ev": "Sess"})
+            api = apidrv.SyncApi(Sink(), cfg, lambda req: holder["r"](req), timeout=0.15, engine_given=False, **kw)
+            if variant == "limit_rps":
+                wrap(api.session)
+            st = {"engine": "A17", "clock": 1}
+            holder["r"] = c13.make_responder(st, api.cfgref, ["drop"] + [("reply", "A17", 1)] * 12)
+            s = api.session
+            for call in ("enter", "enter", "get", "get", "refresh", "get", "get"):
+                try:
+                    if call == "enter":
+                        s.__enter__()
+                    elif call == "refresh":
+                        s.refresh()
+                    else:
+                        s.get("1.3.6.1.2.1.1.5.0")
+                except Exception:
+                    pass
+            api.close()
+            nsess += 1
+
+            async def go2():
+                holder2 = {}
+                emit({"ev": "Sess"})
+                api2 = await apidrv.AsyncApi.create(Sink(), cfg, lambda req: holder2["r"](req), timeout=0.15, engine_given=False,
+                                                    **(dict(policer=Rec()) if variant == "policer" else kw))
+                if variant == "limit_rps":
+                    wrap(api2.session)
+                st2 = {"engine": "A17", "clock": 1}
+                holder2["r"] = c13.make_responder(st2, api2.cfgref, ["drop"] + [("reply", "A17", 1)] * 12)
+                s2 = api2.session
+                for call in ("enter", "enter", "get", "get", "refresh", "get", "get"):
+                    try:
+                        if call == "enter":
+                            await s2.__aenter__()
+                        elif call == "refresh":
+                            await s2.refresh()
+                        else:
+                            await s2.get("1.3.6.1.2.1.1.5.0")
+                    except Exception:
+                        pass
+                api2.close()
+            asyncio.run(go2())
+            nsess += 1
     path = rec.close()
     nwire = sum(1 for e in rec.events if e["ev"] == "Wire")
     if nwire < 40:
